@@ -916,7 +916,8 @@ void hx_gen(Rng &r, const std::string &tier)
                     v = v + Z((long)r.range(-1, 1));
                 if (!exact && r.coin(1, 4))
                     v = rand_z(r, 100);
-                if (r.coin(1, 4))
+                // the negative of an even power is not a perfect power: keep that case small as well
+                if (r.coin(1, 4) && (!exact || n % 2 == 1 || bb <= 100))
                     v = -v;
                 emit("mp perfect_power_p " + zs(v), exact ? "big-pp-exact" : "big-pp");
                 emit("mp perfect_square_p " + zs(v), "big-pp");
